@@ -281,3 +281,18 @@ for _pid, _extra in {
     "C16": "The second run of an object whose first (clean) run used other keepalive settings.",
 }.items():
     _ext(_pid, _extra)
+
+# how a connection's predecessor ended (wave p)
+for _pid, _extra in {
+    "C01": "Key source given as a bound method of an object nothing else references (collected before the send).",
+    "C02": "Also on an object whose first connection was dropped by the peer in the middle of a frame.",
+    "C04": "Also on an object whose first connection was dropped by the peer between two fragments.",
+    "C05": "Also on objects whose first connection was dropped by the peer mid-frame / mid-message.",
+    "C06": "Two more entries: an object re-connected after the peer dropped its first connection between two fragments / inside a frame.",
+    "C07": "The incremental search also on objects re-connected after the peer dropped the first connection mid-frame / mid-message.",
+    "C11": "One caller-supplied verifying context used for two names at one address (server threads share one server-side context); see DESIGN 10.4 wave p for the limits of this scenario.",
+    "C14": "KeyboardInterrupt raised inside on_close itself (server close, end of stream): on_close exactly once with the server's status.",
+    "C16": "A re-established connection that follows a ping timeout on the previous one.",
+    "C17": "1-3 Set-Cookie headers from 13 shapes (expired, repeated, same domain, junk attributes) on a successful response.",
+}.items():
+    _ext(_pid, _extra)
